@@ -228,6 +228,10 @@ var (
 
 func installClock() {
 	time.VerifNowHook = func() time.Time { return baseTime.Add(time.Duration(atomic.LoadInt64(&vnow))) }
+	// the Lua runtime's one-second deadline is a REAL-time timer: a worker process starved of CPU for a second in
+	// the middle of a script run would see the script fail (found by the thorough tier under load: a "context
+	// deadline exceeded" in one of three million executions). Real time is not part of the closed system.
+	time.VerifTimerStretch = 100000
 }
 func nowS() int64 { return atomic.LoadInt64(&vnow) / int64(time.Second) }
 
@@ -1092,10 +1096,40 @@ func Run(r *lib.Report) {
 	if harnessErr {
 		os.Exit(2)
 	}
-	for _, res := range results {
-		if res.Divergence != nil {
-			judgeDivergence(r, res.Cfg, res.Job, res.Divergence, res.Job.Cfg)
+	for i, res := range results {
+		if res.Divergence == nil {
+			continue
 		}
+		// first make sure the divergence is not a one-off (an effect of real time or of the machine's load on the
+		// long-lived worker process): the whole job is run again in a new worker process. The enumeration is
+		// deterministic, so state carried from one execution into the next diverges again at the same prefix.
+		out := fmt.Sprintf("%s/%03d.rerun.json", outDir, i)
+		_ = os.Remove(out)
+		cmd := exec.Command(os.Args[0], "--worker", "C19", fmt.Sprint(i), out)
+		cmd.Dir, _ = os.Getwd()
+		logf, _ := os.Create(fmt.Sprintf("%s/%03d.rerun.log", outDir, i))
+		cmd.Stdout, cmd.Stderr = logf, logf
+		err := cmd.Run()
+		logf.Close()
+		var again WorkerResult
+		b, rerr := os.ReadFile(out)
+		if rerr == nil {
+			rerr = json.Unmarshal(b, &again)
+		}
+		if err != nil || rerr != nil || again.Error != "" {
+			fmt.Printf("HARNESS-ERROR C19 worker %d re-run (%s): %v %v %s\n", i, res.Cfg.ID, err, rerr, again.Error)
+			os.Exit(2)
+		}
+		if again.Divergence == nil {
+			r.Warn(fmt.Sprintf("config %s shard %d: a schedule prefix did not replay once (point %d of prefix %v) and every prefix replayed in a complete second run of the job: a one-off effect on the worker process, not state carried between executions; the second run is the one reported", res.Cfg.ID, res.Job.Shard, res.Divergence.At, res.Divergence.Prefix))
+			results[i] = &again
+			continue
+		}
+		if fmt.Sprint(again.Divergence.Prefix) != fmt.Sprint(res.Divergence.Prefix) || again.Divergence.At != res.Divergence.At {
+			fmt.Printf("HARNESS-ERROR C19 config %s: two runs of the same job failed to replay different prefixes (%v at %d, %v at %d): nondeterminism the harness does not own\n", res.Cfg.ID, res.Divergence.Prefix, res.Divergence.At, again.Divergence.Prefix, again.Divergence.At)
+			os.Exit(2)
+		}
+		judgeDivergence(r, res.Cfg, res.Job, res.Divergence, res.Job.Cfg)
 	}
 	// merge the shards of every config
 	type agg struct {
